@@ -1,0 +1,23 @@
+//go:build verif
+// +build verif
+
+package reverse
+
+import "sync/atomic"
+
+var verifHook atomic.Value // func(point string, id string)
+
+// VerifSetHook installs (or, with nil, removes) a callback invoked at the named
+// yield points of the reverse caller. Only present in builds with the verif tag.
+func VerifSetHook(h func(point string, id string)) {
+	if h == nil {
+		h = func(string, string) {}
+	}
+	verifHook.Store(h)
+}
+
+func verifPoint(point string, id string) {
+	if h, ok := verifHook.Load().(func(string, string)); ok {
+		h(point, id)
+	}
+}
